@@ -180,6 +180,7 @@ func c08Batch(r *rig.SignerRig, kind string, n int, real bool, viaHandler bool) 
 		}
 	case "multisign":
 		data := make([]*rules.SignData, n)
+		var shared []byte
 		req := &pb.MultisignRequest{}
 		for i := range data {
 			dom := make([]byte, 32)
@@ -193,6 +194,15 @@ func c08Batch(r *rig.SignerRig, kind string, n int, real bool, viaHandler bool) 
 			// Neighbours share the data and differ in the domain; every third entry shares the domain.
 			d := &rules.SignData{Domain: dom, Data: c08Root(byte(1 + (i/2)%250))}
 			d.Data[31] = byte(i >> 9)
+			if !viaHandler {
+				// At the service level the roots of a batch are consecutive pieces of one buffer (each slice's capacity
+				// reaches to the end of the buffer): what is computed for one entry must not touch its neighbours' memory.
+				if shared == nil {
+					shared = make([]byte, 32*n)
+				}
+				copy(shared[32*i:32*(i+1)], d.Data)
+				d.Data = shared[32*i : 32*(i+1)]
+			}
 			data[i] = d
 			singleGen[i] = d
 			items[i] = c08Item{acct: accts[i], what: fmt.Sprintf("multisign n=%d entry %d", n, i), root: model.SigningRoot(b32x(d.Data), dom)}
